@@ -18,7 +18,9 @@ def _mismatches(ctx, path, kind):
             raise vf.Machinery("harness error: %s" % r)
         if r.get("repro", 0) < 3:
             if r.get("hang"):
-                raise vf.Machinery("unreproduced hang in %s replay: %s" % (kind, r.get("what")))
+                # exit 2 at the end, unless reproduced violations explain it
+                ctx.notes.setdefault("unreproduced_hangs", []).append("%s replay: %s" % (kind, r.get("what")))
+                continue
             ctx.notes["unreproduced"] = ctx.notes.get("unreproduced", 0) + 1
             continue
         key = dict(kind=kind, what=r.get("what"), client=r.get("client"),
@@ -144,6 +146,8 @@ def run(ctx):
     ctx.cov["evaluations"] += len(recs)
     ctx.cov["distinct_nontrivial"] += len({json.dumps(r["events"]) for r in recs if r["completes"]})
     ctx.sample(recs[0])
+    if ctx.notes.get("unreproduced_hangs") and not ctx.violations and not ctx.known_hits:
+        raise vf.Machinery("unreproduced hang: %s" % ctx.notes["unreproduced_hangs"][0])
     ctx.cov["rule"] = ("slots: every order of Init/Complete/Clear/Await/CtxExpire of length MaxOps over 2 names x 2 waiters "
                        "(all paths) + random walks over 3 names x 3 waiters, replayed step by step on a real Tracer with the "
                        "await hook as scheduler gate; non-trivial = some waiter blocks, gets a trace or is cancelled. builder: "
